@@ -409,7 +409,7 @@ func driveC01(o opts) error {
 			var opTerms []string
 			var opJ []interface{}
 			for _, op := range ops {
-				opTerms = append(opTerms, "("+op.coq(syms)+", None)")
+				opTerms = append(opTerms, op.coqNamed(syms))
 				opJ = append(opJ, op.json())
 				w.Count("op:" + op.Kind)
 			}
